@@ -152,9 +152,17 @@ def m_rec(x):
 ROUNDED_UP = {(4349, 4350): 4.35, (699, 700): 0.7, (-700, -700): -0.7, (-4350, -4350): -4.35}
 
 
+def quat_u(q):
+    """floor(4096 * |q|), exact (the design spec's Bug variants look at the length of the argument)."""
+    s = sum(Fraction(float(x)) ** 2 for x in q)
+    return min(math.isqrt(math.floor(s * 4096 * 4096)), 1 << 30)
+
+
 def q_recs(q):
     """four quaternion components -> integer numerators over a common positive scale (the layout
-    normalises, so the scale is irrelevant); None when they are not on the |n| <= 16 grid."""
+    normalises, so the scale is irrelevant) + the length class u; None when they are not on the
+    |n| <= 16 grid.  Any common factor is allowed: n_i * c is on the grid for every double c for
+    which the four products are exact."""
     fr = [Fraction(float(x)) for x in q]
     den = 1
     for f in fr:
@@ -167,7 +175,41 @@ def q_recs(q):
         nums = [n // g for n in nums]
     if max(abs(n) for n in nums) > 16:
         return None
-    return [{'k': 'q', 'n': n} for n in nums]
+    u = quat_u(q)
+    return [{'k': 'q', 'n': n, 'u': u} for n in nums]
+
+
+def py_quat(recs):
+    """four "q" records -> floats with exactly these records: n_i * 2^e when a power of two gives the
+    length class, else n_i * j / 2^20 (exact products) with floor(|n| * j / 256) = u."""
+    ns = [r['n'] for r in recs]
+    u = recs[0]['u']
+    want = [dict(r) for r in recs]
+    if not any(ns):
+        return [0.0] * 4
+    for e in range(-14, 15):
+        q = [float(n) * 2.0 ** e for n in ns]
+        if q_recs(q) == want:
+            return q
+    nn = sum(n * n for n in ns)
+    j0 = math.isqrt((u * 256) ** 2 // nn)
+    for j in range(max(1, j0 - 2), j0 + 4):
+        q = [n * j / 1048576.0 for n in ns]
+        if q_recs(q) == want:
+            return q
+    raise common.MachineryError('no float quaternion has the records %r' % (recs,))
+
+
+def py_args_from_records(recs):
+    out, i = [], 0
+    while i < len(recs):
+        if recs[i]['k'] == 'q':
+            out.extend(py_quat(recs[i:i + 4]))
+            i += 4
+        else:
+            out.append(py_from_record(recs[i]))
+            i += 1
+    return out
 
 
 def arg_records(cmd, a):
@@ -220,8 +262,6 @@ def py_from_record(r):
         if (r['lo'], r['tr']) in ROUNDED_UP and not r['ex']:
             return ROUNDED_UP[(r['lo'], r['tr'])]
         return r['lo'] / 1000.0 if r['ex'] else (r['lo'] + 0.5) / 1000.0
-    if k == 'q':
-        return float(r['n'])
     if k in ('l', 'r'):
         return list(r['v'])
     raise common.MachineryError('bad arg record %r' % (r,))
@@ -256,17 +296,56 @@ def dec(e):
 
 
 # --------------------------------------------------------------------------- the real code
+CAP = 1      # RadioDriver: out_queue = queue.Queue(1)
+
+
+def _wire(pk):
+    # the drivers transmit pk.header followed by pk.data
+    return {'h': int(pk.header), 'data': list(bytes(pk.data))}
+
+
 class RecordingLink:
-    """Stands where the radio/USB driver stands: receives what Crazyflie.send_packet lets through."""
+    """Stands where the radio/USB driver stands: receives what Crazyflie.send_packet lets through.
+    mode 'now': serialises inside send_packet (UsbDriver, CPX/TCP/serial, UDP, PRRT drivers).
+    mode 'later': keeps the packet OBJECT like RadioDriver.send_packet (out_queue.put(pk), the radio
+    thread reads pk.header / pk.data when it gets to it): at most CAP objects are kept; the oldest is
+    serialised at the latest when the next one is handed over (put() on the full queue returns only
+    after the radio thread has taken the previous object), or when the harness lets the link thread
+    run ('drain')."""
     needs_resending = False
 
-    def __init__(self):
-        self.sent = []
+    def __init__(self, ev):
+        self.ev = ev
+        self.mode = 'now'
+        self.sent = []           # serialisations that belong to the call in progress
+        self.pending = []        # [packet object, owner (index of the call in progress), bytes at hand-over]
+        self.owner = 0           # number of the call in progress (0: none)
+        self.step = 0
 
     def send_packet(self, pk):
-        # the drivers transmit pk.header followed by pk.data
-        self.sent.append({'h': int(pk.header), 'data': list(bytes(pk.data))})
+        if self.mode == 'now':
+            self.sent.append(_wire(pk))
+            return True
+        while len(self.pending) >= CAP:
+            self.serialise_oldest()
+        self.pending.append([pk, self.owner, _wire(pk)])
         return True
+
+    def serialise_oldest(self):
+        pk, owner, snap = self.pending.pop(0)
+        w = _wire(pk)
+        if owner == self.owner and owner:
+            self.sent.append(w)          # an earlier object of the call in progress
+        else:
+            # harness-only annotations: of = number of the call that handed the object over, same = the
+            # object still holds what it held then, st = step in progress
+            self.ev.append({'e': 'ser', 'pk': w, 'of': owner, 'same': w == snap, 'st': self.step})
+
+    def drain(self):
+        budget = 1000
+        while self.pending and budget:
+            budget -= 1
+            self.serialise_oldest()
 
     def receive_packet(self, wait=0):
         return None
@@ -276,17 +355,20 @@ class RecordingLink:
 
 
 def _execute(steps):
-    """Run a scenario on a fresh real Crazyflie.  steps: ['ver', v] | ['xmode', b] |
-    ['call', cmd, [encoded args]] | ['hdr', how, port, chan].  Returns the trace dict."""
+    """Run a scenario on a fresh real Crazyflie.  steps: ['ver', v] | ['xmode', b] | ['link', mode] |
+    ['drain'] | ['call', cmd, [encoded args]] | ['hdr', how, port, chan].  Returns the trace dict.
+    Every event carries st = the index of the step that produced it (harness-only)."""
     import cflib.crazyflie as cfm
     from cflib.crtp.crtpstack import CRTPPacket
     cf = cfm.Crazyflie()
-    link = RecordingLink()
+    ev = []
+    link = RecordingLink(ev)
     cf.link = link
     cf.platform._callback = lambda: None
-    ev = []
     tr = {'ver0': int(cf.platform.get_protocol_version()), 'xmode0': bool(cf.commander._x_mode), 'ev': ev}
-    for st in steps:
+    ncall = 0
+    for si, st in enumerate(steps):
+        link.step = si
         if st[0] == 'ver':
             # the firmware's answer to VERSION_GET_PROTOCOL: port 13, channel 1, data (0, version);
             # version -1 = "not a versioned firmware" arrives through the link-service path
@@ -300,23 +382,38 @@ def _execute(steps):
                 pk.set_header(15, 1)
                 pk.data = b'not a crazyflie...'
                 cf.platform._crt_service_callback(pk)
-            ev.append({'e': 'ver', 'v': st[1]})
+            ev.append({'e': 'ver', 'v': st[1], 'st': si})
         elif st[0] == 'xmode':
             cf.commander.set_client_xmode(st[1])
-            ev.append({'e': 'xmode', 'v': bool(st[1])})
+            ev.append({'e': 'xmode', 'v': bool(st[1]), 'st': si})
+        elif st[0] == 'link':
+            if st[1] != link.mode:
+                link.drain()             # between connections nothing is queued
+                link.mode = st[1]
+                ev.append({'e': 'link', 'v': st[1], 'st': si})
+        elif st[0] == 'drain':
+            link.drain()
         elif st[0] == 'call':
             cmd = st[1]
             a = [dec(x) for x in st[2]]
             recs = arg_records(cmd, a)
-            n0 = len(link.sent)
+            ncall += 1
+            link.owner = ncall
+            link.sent = []
             exc = ''
             try:
                 _call(cf, cmd, a)
-                out = 'sent' if len(link.sent) > n0 else 'none'
+                out = None
             except Exception as e:       # noqa -- the outcome alphabet includes "raised"
                 out = 'raised'
                 exc = type(e).__name__
-            ev.append({'e': 'call', 'cmd': cmd, 'args': recs, 'out': out, 'pks': link.sent[n0:], 'exc': exc})
+            nq = sum(1 for p in link.pending if p[1] == ncall)
+            if out is None:
+                out = 'sent' if (link.sent or nq) else 'none'
+            ev.append({'e': 'call', 'cmd': cmd, 'args': recs, 'out': out, 'pks': link.sent, 'nq': nq, 'exc': exc,
+                       'no': ncall, 'st': si})
+            link.owner = 0
+            link.sent = []
         elif st[0] == 'hdr':
             how, p, c = st[1], st[2], st[3]
             if how == 'set_header':
@@ -333,15 +430,19 @@ def _execute(steps):
                 pk.channel = c
                 pk.port = p
                 h = pk.get_header()
-            else:   # through the whole send path
+            else:   # through the whole send path (a link that serialises at once)
                 pk = CRTPPacket()
                 pk.port = p
                 pk.channel = c
                 pk.data = b'\x01'
-                n0 = len(link.sent)
+                link.drain()
+                mode, link.mode, link.sent = link.mode, 'now', []
                 cf.send_packet(pk)
-                h = link.sent[n0]['h'] if len(link.sent) > n0 else -1
-            ev.append({'e': 'hdr', 'port': p, 'chan': c, 'h': int(h), 'how': how})
+                h = link.sent[0]['h'] if link.sent else -1
+                link.mode, link.sent = mode, []
+            ev.append({'e': 'hdr', 'port': p, 'chan': c, 'h': int(h), 'how': how, 'st': si})
+    link.step = len(steps)
+    link.drain()                          # the link thread gets to everything in the end
     return tr
 
 
@@ -529,6 +630,52 @@ def mutant(name):
             if pk.channel == ps.VERSION_COMMAND and pk.data[0] == ps.VERSION_GET_PROTOCOL:
                 self._protocolVersion = pk.data[1] - 1
         patch(ps.PlatformService, '_platform_callback', _platform_callback)
+    elif name == 'hl_packet_object_kept':
+        def _send_packet(self, data):
+            pk = self.__dict__.get('_kept_pk')
+            if pk is None:
+                pk = self.__dict__['_kept_pk'] = CRTPPacket()
+                pk.port = CRTPPort.SETPOINT_HL
+            pk.data = data
+            self._cf.send_packet(pk)
+        patch(hl.HighLevelCommander, '_send_packet', _send_packet)
+    elif name == 'commander_packet_object_kept':
+        kept = CRTPPacket()
+
+        def send_position_setpoint(self, x, y, z, yaw):
+            kept.port = CRTPPort.COMMANDER_GENERIC
+            kept.channel = cm.SET_SETPOINT_CHANNEL
+            kept.data = struct.pack('<Bffff', cm.TYPE_POSITION, x, y, z, yaw)
+            self._cf.send_packet(kept)
+
+        def send_stop_setpoint(self):
+            kept.port = CRTPPort.COMMANDER_GENERIC
+            kept.channel = cm.SET_SETPOINT_CHANNEL
+            kept.data = struct.pack('<B', cm.TYPE_STOP)
+            self._cf.send_packet(kept)
+        patch(cm.Commander, 'send_position_setpoint', send_position_setpoint)
+        patch(cm.Commander, 'send_stop_setpoint', send_stop_setpoint)
+    elif name == 'quat_unit_length_trusted':
+        import numpy as np
+
+        def compress_quaternion(quat):
+            quat_n = np.array(quat, dtype=float)
+            norm = np.linalg.norm(quat_n)
+            if not np.isclose(norm, 1.0, rtol=0, atol=4e-3):
+                quat_n = quat_n / norm
+            i_largest = 0
+            for i in range(1, 4):
+                if abs(quat_n[i]) > abs(quat_n[i_largest]):
+                    i_largest = i
+            negate = quat_n[i_largest] < 0
+            comp = i_largest
+            for i in range(4):
+                if i != i_largest:
+                    negbit = int((quat_n[i] < 0) ^ negate)
+                    mag = int(((1 << 9) - 1) * (abs(quat_n[i]) * np.sqrt(2)) + 0.5)
+                    comp = (comp << 10) | (negbit << 9) | mag
+            return comp
+        patch(cm, 'compress_quaternion', compress_quaternion)
     else:
         raise common.MachineryError('unknown mutant %s' % name)
     try:
@@ -541,7 +688,11 @@ def mutant(name):
 MUTANTS = ['lost_pitch_flip', 'thrust_clipped', 'xmode_wrong_rotation', 'legacy_threshold_lt8',
            'legacy_yaw_not_negated', 'wrong_type_code', 'goto_flags_swapped', 'takeoff_fields_swapped',
            'wrong_width', 'wrong_port', 'wrong_channel', 'header_port_masked', 'quat_component_order',
-           'fixed_point_scale', 'int16_wrapped', 'spiral_below_v8_sent', 'version_off_by_one', 'size_check_removed']
+           'fixed_point_scale', 'int16_wrapped', 'spiral_below_v8_sent', 'version_off_by_one', 'size_check_removed',
+           'hl_packet_object_kept', 'commander_packet_object_kept', 'quat_unit_length_trusted']
+# what the newer mutants need: a link that keeps the packet object / nearly-unit quaternions
+MUTANT_NEEDS = {'hl_packet_object_kept': 'later', 'commander_packet_object_kept': 'later',
+                'quat_unit_length_trusted': 'quat'}
 
 
 # --------------------------------------------------------------------------- scenario sources
@@ -563,6 +714,33 @@ MILLI = [0.0, -0.0, 1.5, -0.25, 1.2345, -1.2345, 0.001, -0.001, 0.0005, -0.0005,
 QUATS = [(0, 0, 0, 1), (0, 0, 0, -1), (1, 0, 0, 0), (0, -1, 0, 0), (1, 2, 3, 4), (-3, 3, -3, 3), (0, 0, 0, 0),
          (-16, 5, 0, -7), (1, 1, 0, 0), (16, 16, 16, -16), (2, -9, 9, 1), (7, 0, -7, 0), (1, 0, 0, 16),
          (-5, -6, -7, -8), (1, 1, 1, 1), (-1, -1, -1, -1), (0, 16, 15, 0), (0, 0, 1, -1), (3, 4, 0, 0)]
+# nearly-unit quaternions: direction (integers) x length factor; n_i * j / 2^20 is exact, so the argument
+# stays on the monitor's integer grid.  Hand-typed ones: a two/three-decimal constant times a 0/+-1 pattern
+QUAT_FACTORS = [0.9, 0.98, 0.99, 0.9901, 0.995, 0.997, 0.998, 0.999, 0.9999, 1 - 1e-6, 1 + 1e-6, 1.0001, 1.001, 1.002,
+                1.003, 1.005, 1.0075, 1.0099, 1.0101, 1.02, 1.1]
+QUAT_TIES = [(0, 0, 1, 1), (1, -1, 0, 0), (0, 1, 0, -1), (-1, 0, 0, 1), (1, 1, 1, 0), (0, -1, 1, 1), (1, -1, 1, -1),
+             (1, 1, 1, 1), (0, 0, 0, 1), (0, 0, -1, 0)]
+QUAT_TYPED = [0.71, 0.7, 0.707, 0.7071, 0.70711, 0.708, 0.58, 0.577, 0.5774, 0.5, 0.501, 0.4999, 0.505, 1.0, 0.999,
+              1.004, 1.01, 0.99]
+
+
+def scaled_quat(n, f):
+    """direction n (integers), length f up to 2^-20."""
+    j = int(round(1048576.0 * f / math.sqrt(sum(x * x for x in n))))
+    return [x * j / 1048576.0 for x in n]
+
+
+def near_unit_quats():
+    out = []
+    for n in [q for q in QUATS if any(q)] + QUAT_TIES:
+        for f in QUAT_FACTORS:
+            out.append(scaled_quat(n, f))
+    for n in QUAT_TIES:
+        for c in QUAT_TYPED:
+            out.append([x * c for x in n])
+    return out
+
+
 LISTS = [[], [0], [15], [15, 1], [16], [-1], [3, 7, 11], [2, 16, 1], list(range(16)), [5, 2, 9], [0, 15],
          [1, 1], [15, 15], [0, 3, 3], [4, 4, 4, 4]]
 
@@ -623,10 +801,21 @@ def rnd_arg(rng, cmd, i, k):
 
 
 def rnd_quat(rng):
-    if rng.random() < 0.3:
+    r = rng.random()
+    if r < 0.3:
         q = rng.choice(QUATS)
+    elif r < 0.4:
+        q = rng.choice(QUAT_TIES)
     else:
         q = tuple(rng.randint(-16, 16) for _ in range(4))
+    r = rng.random()
+    if r < 0.4 and any(q):
+        # nearly unit length (what a float32 pipeline or a hand-typed attitude gives), and other lengths
+        f = rng.choice(QUAT_FACTORS) if rng.random() < 0.5 else rng.uniform(0.985, 1.015)
+        return scaled_quat(q, f)
+    if r < 0.5 and max(abs(n) for n in q) <= 1:
+        c = rng.choice(QUAT_TYPED)
+        return [n * c for n in q]
     s = 2.0 ** rng.choice([0, 0, -4, -4, -10, 3, 10])
     return [float(n) * s for n in q]
 
@@ -756,6 +945,10 @@ def enumerated_calls(tier):
         if cmd in ('hl_stop', 'hl_group_mask'):
             for n in range(256):
                 calls.append((9, False, call_step(cmd, [n])))
+    # full state: every direction x lengths around 1, the other fields rotating
+    for r, q in enumerate(near_unit_quats()):
+        ms = [[0.0, 1.5, -0.25, 1.2345, -1.2345, 32.767, -32.768, 0.001][(r + i) % 8] for i in range(12)]
+        calls.append((9 if r % 5 else 8, False, call_step('full_state', ms[:9] + q + ms[9:])))
     # x-mode grid: all pairs of a coarse grid
     grid = [-128.0, -45.0, -30.0, -2.5, -0.125, 0.0, 0.125, 1.0, 7.5, 30.0, 45.0, 100.5, 128.0]
     if tier == 'thorough':
@@ -770,6 +963,70 @@ def enumerated_calls(tier):
         for xm in (False, True):
             calls.append((9, xm, call_step('setpoint', [1.0, -2.5, 0.5, t])))
     return calls
+
+
+def valid_args(cmd, v):
+    """Arguments every command accepts (two variants that differ in every field they can)."""
+    ks = KINDS[cmd]
+    a, i = [], 0
+    while i < len(ks):
+        k = ks[i]
+        if k == 'f':
+            a.append([0.5, -1.25, 2.0, 0.25, 1.5, -0.75, 3.0][i % 7] + v)
+        elif k == 'o':
+            a.append(None if v else 0.5)
+        elif k == 'm':
+            a.append(0.25 * (i + 1) + v)
+        elif k == 'q':
+            a.extend([1.0, 2.0, 3.0, 4.0] if v else [0.0, 0.0, 1.0, -1.0])
+            i += 4
+            continue
+        elif k == 'i':
+            if cmd == 'setpoint':
+                a.append(30000 + v)
+            elif cmd == 'hl_define_traj' and i == 3:
+                a.append(v % 2)
+            elif (cmd, i) in (('notify_stop', 0), ('hl_define_traj', 1)):
+                a.append(70000 * v + 5)
+            else:
+                a.append(1 + 2 * v + i)
+        elif k == 'b':
+            a.append((i + v) % 2 == 0)
+        elif k == 'l':
+            a.append([1, 3] if v else [0, 15, 7])
+        elif k == 'r':
+            a.append([(5 * j + v) % 256 for j in range(3 + 9 * v)])
+        i += 1
+    return a
+
+
+def laterise(sc, rng, p_drain=0.2):
+    """The same scenario on a link that keeps the packet objects; the link thread runs (drain) now and then."""
+    out = [['link', 'later']]
+    for st in sc:
+        out.append(st)
+        if st[0] == 'call' and rng.random() < p_drain:
+            out.append(['drain'])
+    return out
+
+
+def pair_bursts(cmds, versions=(9,)):
+    """Every ordered pair of commands back to back on the "later" link: the second call is made while the
+    link still keeps the packet object of the first.  Deterministic."""
+    scs, cur, n = [], None, 0
+    for v in versions:
+        for c1 in cmds:
+            for c2 in cmds:
+                if cur is None or n >= 40:
+                    cur, n = [['link', 'later'], ['ver', v]], 0
+                    scs.append(cur)
+                cur.append(call_step(c1, valid_args(c1, 0)))
+                cur.append(call_step(c2, valid_args(c2, 1)))
+                n += 2
+                if (len(c1) + len(c2)) % 3 == 0:
+                    cur.append(['drain'])
+        cur = None
+    return scs
 
 
 def sensitivity_scenarios(ecalls, rng):
@@ -816,7 +1073,7 @@ def calls_from_graph(g):
         st = g.states[sid]
         last = st['last']
         if last['kind'] == 'cmd':
-            a = [py_from_record(r) for r in last['args']]
+            a = py_args_from_records(last['args'])
             exp = {'out': last['out'], 'pks': [{'h': p['h'], 'data': list(p['data'])} for p in last['pks']]}
             out.append((last['ver'], last['xmode'], call_step(last['cmd'], a), exp,
                         [_plain(r) for r in last['args']]))
@@ -848,13 +1105,15 @@ def compare_expected(events, expected):
     ok = 0
     bad = []
     for e, (exp, recs) in zip(events, expected):
-        if e['e'] == 'call':
-            same = (e['out'] == exp['out'] and e['pks'] == exp['pks'])
+        if e['e'] == 'ser' or 'pk' in exp:
+            same = (e['e'] == 'ser' and 'pk' in exp and e['pk'] == exp['pk'])
+        elif e['e'] == 'call':
+            same = ('out' in exp and e['out'] == exp['out'] and e['pks'] == exp['pks'])
             if recs is not None and e['args'] != recs:
                 raise common.MachineryError('argument conversion is not the inverse of the spec form: %r vs %r'
                                             % (e['args'], recs))
         else:
-            same = (e['h'] == exp['h'])
+            same = ('h' in exp and e['h'] == exp['h'])
         if same:
             ok += 1
         else:
@@ -867,7 +1126,7 @@ def strip(tr):
     """What TLC gets: the events without the harness-only annotations."""
     ev = []
     for e in tr['ev']:
-        e = {k: v for k, v in e.items() if k not in ('exc', 'how')}
+        e = {k: v for k, v in e.items() if k not in ('exc', 'how', 'st', 'of', 'same', 'no')}
         ev.append(e)
     return {'id': tr['id'], 'ver0': tr['ver0'], 'xmode0': tr['xmode0'], 'ev': ev}
 
@@ -919,24 +1178,57 @@ def signature(trace, clause, at, field):
         cls.append('repeated-base-station' if dup else 'distinct')
     if field and cmd != 'lh_persist':
         cls.append('field%d' % field)
+    if any(not x['same'] for x in late_packets(trace, e)):
+        # which clause fails first depends on the command that came next: one signature per command
+        return 'Emission/%s/object-changed-after-hand-over' % cmd
     return '/'.join([clause, cmd] + cls)
 
 
-def minimal_replay(trace, at):
-    """The steps that reproduce the failing event: version, x-mode, the call."""
-    ver, xm = trace['ver0'], trace['xmode0']
+def late_packets(trace, call_ev):
+    """The 'ser' events of the packet objects this call handed to a link that keeps them."""
+    return [x for x in trace['ev'] if x['e'] == 'ser' and x.get('of') == call_ev.get('no', -1)]
+
+
+def context_steps(trace, at):
+    ver, xm, lk = trace['ver0'], trace['xmode0'], 'now'
     for x in trace['ev'][:at - 1]:
         if x['e'] == 'ver':
             ver = x['v']
         elif x['e'] == 'xmode':
             xm = x['v']
+        elif x['e'] == 'link':
+            lk = x['v']
     steps = []
+    if lk != 'now':
+        steps.append(['link', lk])
     if ver != -1:
         steps.append(['ver', ver])
     if xm:
         steps.append(['xmode', True])
-    steps.append(trace['steps'][at - 1])
     return steps
+
+
+def minimal_replay(trace, at):
+    """The steps that reproduce the failing event: link kind, version, x-mode, the call -- and, when the
+    packet object was serialised by the link after the call, everything up to that moment (checked by
+    re-execution; the whole history when the short form does not reproduce the bytes)."""
+    e = trace['ev'][at - 1]
+    steps = context_steps(trace, at) + [trace['steps'][e['st']]]
+    late = late_packets(trace, e) if e['e'] == 'call' else []
+    if all(x['same'] for x in late):
+        # nothing happened to the packet object between hand-over and serialisation: the kind of link is
+        # irrelevant, the call alone reproduces the bytes
+        return [s for s in steps if s[0] != 'link']
+    upto = max(x['st'] for x in late)
+    steps = context_steps(trace, at) + trace['steps'][e['st']:upto + 1] + [['drain']]
+    try:
+        t2 = execute(steps)
+        c2 = next(x for x in t2['ev'] if x['e'] == 'call')
+        if [x['pk'] for x in late_packets(t2, c2)] == [x['pk'] for x in late]:
+            return steps
+    except Exception:       # noqa -- the short form is an optimisation only
+        pass
+    return trace['steps'][:upto + 1] + [['drain']]
 
 
 def run(scs):
@@ -950,14 +1242,28 @@ def run(scs):
 
 def report_violations(out, bad):
     # smallest witness of every signature first (finish() keeps the first one per signature)
-    bad = sorted(bad, key=lambda b: (len(json.dumps(b[0]['steps'][b[2] - 1])), json.dumps(b[0]['steps'][b[2] - 1])))
+    def the_step(b):
+        return b[0]['steps'][b[0]['ev'][b[2] - 1]['st']]
+    bad = sorted(bad, key=lambda b: (len(json.dumps(the_step(b))), json.dumps(the_step(b))))
+    seen = set()
     for (t, clause, at, field) in bad:
         e = dict(t['ev'][at - 1])
+        sig = signature(t, clause, at, field)
+        if sig in seen:             # finish() keeps the first witness of a signature; the others are counted
+            out.violation(sig, clause, {'another_witness_of': sig}, {})
+            continue
+        seen.add(sig)
         steps = minimal_replay(t, at)
-        pyargs = [dec(x) for x in steps[-1][2]] if steps[-1][0] == 'call' else steps[-1][1:]
+        st = the_step((t, clause, at, field))
+        pyargs = [dec(x) for x in st[2]] if st[0] == 'call' else st[1:]
         detail = {'event': e, 'python_args': repr(pyargs), 'field': field,
                   'version': [s[1] for s in steps if s[0] == 'ver'] or [-1], 'xmode': any(s[0] == 'xmode' for s in steps)}
-        out.violation(signature(t, clause, at, field), clause, detail, {'steps': steps})
+        late = late_packets(t, e) if e['e'] == 'call' else []
+        if late:
+            detail['link'] = 'keeps the packet object, serialises later (RadioDriver)'
+            detail['on_the_wire'] = [x['pk'] for x in late]
+            detail['object_unchanged_since_hand_over'] = [x['same'] for x in late]
+        out.violation(sig, clause, detail, {'steps': steps})
 
 
 # --------------------------------------------------------------------------- the check
@@ -978,6 +1284,9 @@ def main(tier, seed, replay=None):
         'x-mode is decided on the 1/8-degree grid |v| <= 128 with 0.7070 <= k <= 0.7072; quaternions on the integer grid |n| <= 16 '
         '(any power-of-two scale); fixed-point fields within 1 LSB; documented spiral saturation accepted',
         'header equality is port + channel (reserved bits 2..3 not inspected, DESIGN 3.1(3)); ports 0..15, channels 0..3',
+        'what a command emits is what the link puts on the wire for the packet object handed to it; the link may keep '
+        'the object and read header and data later, but no later than when it accepts the next object (RadioDriver: '
+        'out_queue of one, put() returns after the radio thread took the previous object)',
     ]
     if replay:
         rp = json.load(open(replay))['replay']
@@ -993,7 +1302,12 @@ def main(tier, seed, replay=None):
     out.add_tlc(cfg, r)
     r = tlc.check('MC_Commands.tla', 'MC_Commands_dup.cfg', timeout=600)
     out.add_tlc('MC_Commands_dup.cfg', r)
-    for b in ('pitch_sign', 'legacy_threshold', 'thrust_clip', 'goto_order', 'mask_add'):
+    # the link that keeps the packet object: Build / Hand / Ser interleavings, two calls in flight
+    dcfg = 'MC_Commands_defer.cfg' if tier == 'quick' else 'MC_Commands_defer_thorough.cfg'
+    r = tlc.check('MC_Commands.tla', dcfg, timeout=3000)
+    out.add_tlc(dcfg, r)
+    for b in ('pitch_sign', 'legacy_threshold', 'thrust_clip', 'goto_order', 'mask_add', 'hl_shared_packet',
+              'quat_unit_shortcut'):
         rb = tlc.expect_violation('MC_Commands.tla', 'MC_Commands_bug_%s.cfg' % b, timeout=600)
         out.sensitivity['spec:Bug=' + b] = 'refuted (%s) after %d states' % (rb.violated, rb.distinct)
 
@@ -1004,21 +1318,46 @@ def main(tier, seed, replay=None):
                             seed=seed % 100000, timeout=1800)
     out.add_tlc('SIM_Commands.cfg (-simulate)', rs)
     sim_scs, sim_exp = [], []
+    n_later = 0
     for beh in behs:
         sc, exp = [], []
+        open_call, open_sers = None, []      # Build seen, Hand not yet: the call runs when Hand is reached
         for label, st in beh[1:]:
             name = label.split('(')[0].strip()
-            args = tlc.parse_label(label)[1] if name in ('SetVersion', 'SetXMode', 'MakeHeader') else []
+            args = tlc.parse_label(label)[1] if name in ('SetVersion', 'SetXMode', 'MakeHeader', 'SetLink') else []
             if name == 'SetVersion':
                 sc.append(['ver', args[0]])
             elif name == 'SetXMode':
                 sc.append(['xmode', args[0]])
+            elif name == 'SetLink':
+                sc.append(['link', args[0]])
+                n_later += args[0] == 'later'
             elif name == 'Call':
                 last = st['last']
-                a = [py_from_record(x) for x in last['args']]
+                a = py_args_from_records(last['args'])
                 sc.append(call_step(last['cmd'], a))
                 exp.append(({'out': last['out'], 'pks': [{'h': p['h'], 'data': list(p['data'])} for p in last['pks']]},
                             [_plain(x) for x in last['args']]))
+            elif name == 'Build':
+                if st['building']['obj'] == -1:       # over at once: raised / nothing to send
+                    last = st['last']
+                    sc.append(call_step(last['cmd'], py_args_from_records(last['args'])))
+                    exp.append(({'out': last['out'], 'pks': []}, [_plain(x) for x in last['args']]))
+                else:
+                    open_call, open_sers = st['building']['call'], []
+            elif name == 'Ser':
+                pk = st['last']['pks'][0]
+                e = ({'pk': {'h': pk['h'], 'data': list(pk['data'])}}, None)
+                if open_call is not None:
+                    open_sers.append(e)       # the link thread runs while the caller is between Build and Hand:
+                else:                         # the harness's link does that inside send_packet (queue full)
+                    sc.append(['drain'])
+                    exp.append(e)
+            elif name == 'Hand':
+                sc.append(call_step(open_call['cmd'], py_args_from_records(open_call['args'])))
+                exp.extend(open_sers)
+                exp.append(({'out': open_call['out'], 'pks': []}, [_plain(x) for x in open_call['args']]))
+                open_call, open_sers = None, []
             elif name == 'MakeHeader':
                 sc.append(['hdr', 'attrs', args[0], args[1]])
                 exp.append(({'h': st['last']['h']}, None))
@@ -1027,13 +1366,13 @@ def main(tier, seed, replay=None):
             sim_exp.append(exp)
     g_scs = chunked([(v, x, s) for (v, x, s, _e, _r) in gcalls], rng)
     g_traces = run(g_scs)
-    flat = [e for t in g_traces for e in t['ev'] if e['e'] in ('call', 'hdr')]
+    flat = [e for t in g_traces for e in t['ev'] if e['e'] in ('call', 'hdr', 'ser')]
     ok1, badg = compare_expected(flat, [(e, rr) for (_v, _x, _s, e, rr) in gcalls])
     sim_traces = run(sim_scs)
     ok2, n2 = 0, 0
     bads = []
     for t, exp in zip(sim_traces, sim_exp):
-        evs = [e for e in t['ev'] if e['e'] in ('call', 'hdr')]
+        evs = [e for e in t['ev'] if e['e'] in ('call', 'hdr', 'ser')]
         k, b = compare_expected(evs, exp)
         ok2 += k
         n2 += len(exp)
@@ -1041,6 +1380,7 @@ def main(tier, seed, replay=None):
     out.conformance['spec_to_code'] = {
         'graph_states_driven': len(gcalls), 'graph_matched': ok1,
         'simulated_behaviours': len(sim_scs), 'simulated_steps': n2, 'simulated_matched': ok2,
+        'simulated_switches_to_a_link_that_keeps_the_object': n_later,
         'mismatches_by_command': _by_cmd([e for (e, _x) in badg + bads]),
         'first_mismatches': [{'cmd': e.get('cmd'), 'got': {'out': e.get('out'), 'pks': e.get('pks'), 'h': e.get('h')},
                               'spec': x} for (e, x) in (badg + bads)[:3]]}
@@ -1051,8 +1391,13 @@ def main(tier, seed, replay=None):
     h_scs = [header_steps()]
     nrand = 12000 if tier == 'quick' else 250000
     r_scs = chunked(random_calls(rng, nrand), rng)
-    e_traces, h_traces, r_traces = run(e_scs), run(h_scs), run(r_scs)
-    all_traces = g_traces + sim_traces + e_traces + h_traces + r_traces
+    # every third scenario runs on a link that keeps the packet objects and serialises them later
+    # (RadioDriver); plus every ordered pair of commands back to back on such a link
+    e_scs = [laterise(sc, rng) if i % 3 == 1 else sc for i, sc in enumerate(e_scs)]
+    r_scs = [laterise(sc, rng) if i % 3 == 1 else sc for i, sc in enumerate(r_scs)]
+    p_scs = pair_bursts(CMDS) + pair_bursts([c for c in CMDS if c.startswith('hl_')], (7,))
+    e_traces, h_traces, r_traces, p_traces = run(e_scs), run(h_scs), run(r_scs), run(p_scs)
+    all_traces = g_traces + sim_traces + e_traces + h_traces + r_traces + p_traces
     bad, drift = judge(out, all_traces, 'real code')
     ncalls = sum(1 for t in all_traces for e in t['ev'] if e['e'] in ('call', 'hdr'))
     dclass = {}
@@ -1066,20 +1411,22 @@ def main(tier, seed, replay=None):
                                        'first_unexplained_event_by_command': dclass,
                                        'traces_explained_by_design_spec': len(all_traces) - len(drift) - len(bad),
                                        'first_drift': [{'event': {k: v for k, v in t['ev'][at - 1].items() if k != 'args'},
-                                                        'python_args': repr([dec(x) for x in t['steps'][at - 1][2]])
-                                                        if t['steps'][at - 1][0] == 'call' else None}
+                                                        'python_args': repr([dec(x) for x in t['steps'][t['ev'][at - 1]['st']][2]])
+                                                        if t['ev'][at - 1]['e'] == 'call' else None}
                                                        for (t, at) in drift[:3]]}
     report_violations(out, bad)
     out.evaluations = ncalls
     distinct = set()
     for t in all_traces:
-        ctx = [t['ver0'], t['xmode0']]
+        ctx = [t['ver0'], t['xmode0'], 'now']
         for e in t['ev']:
             if e['e'] == 'ver':
                 ctx[0] = e['v']
             elif e['e'] == 'xmode':
                 ctx[1] = e['v']
-            else:
+            elif e['e'] == 'link':
+                ctx[2] = e['v']
+            elif e['e'] in ('call', 'hdr'):
                 distinct.add(json.dumps([ctx, e.get('cmd'), e.get('args'), e.get('port'), e.get('chan'), e.get('how')],
                                         sort_keys=True))
     out.distinct = len(distinct)
@@ -1088,8 +1435,12 @@ def main(tier, seed, replay=None):
                 'sources: every call state of the TLC graph of MC_Commands_quick, TLC -simulate behaviours of SIM_Commands, '
                 'own enumeration (28 commands x 6 versions x x-mode x all boolean combinations x boundary integers x rotations '
                 'of %d special floats, x-mode grid pairs, all 256 group masks, base-station lists incl. repeats, 4 x 16 x 4 headers), '
-                'seeded random arguments (any float32 bit pattern, doubles that need rounding, boundary ints); '
-                'distinct = distinct (context, case) tuples' % len(SPECIAL_FLOATS))
+                'full-state quaternions: %d directions x %d lengths around 1 and hand-typed constants, '
+                'seeded random arguments (any float32 bit pattern, doubles that need rounding, boundary ints, nearly-unit quaternions); '
+                'links: one that serialises inside send_packet and one that keeps the packet object (queue of %d, as RadioDriver) -- '
+                'every third scenario and all %d ordered pairs of commands back to back run on the latter; '
+                'distinct = distinct (context incl. link kind, case) tuples'
+                % (len(SPECIAL_FLOATS), len(QUATS) - 1 + len(QUAT_TIES), len(QUAT_FACTORS), CAP, len(CMDS) ** 2))
     pick = [t for t in (e_traces[:1] + r_traces[:1] + h_traces[:1])]
     out.samples = [{'ver0': t['ver0'], 'events': [{k: v for k, v in e.items()} for e in t['ev'][:3]]} for t in pick]
 
@@ -1097,10 +1448,14 @@ def main(tier, seed, replay=None):
     #    of them); scenarios the unchanged code already fails are left out
     bad_ids = {id(t) for (t, _c, _a, _f) in bad}
     sub = sensitivity_scenarios(enumerated_calls('quick'), rng)       # the same slice in both tiers
+    sub_need = {
+        'later': pair_bursts([c for c in CMDS if c.startswith('hl_')] + ['position', 'stop_setpoint', 'extpos']),
+        'quat': chunked([(9, False, call_step('full_state', [0.0] * 9 + q + [0.0] * 3))
+                         for q in near_unit_quats()[::3]], rng)}
     sens = []
     for name in MUTANTS:
         with mutant(name):
-            for t in run(sub):
+            for t in run(sub_need.get(MUTANT_NEEDS.get(name), sub)):
                 t['tag'] = 'mutant:' + name
                 sens.append(t)
     # corrupted recordings of the unchanged code: a 31-byte payload, one byte changed, a packet doubled
@@ -1120,7 +1475,13 @@ def main(tier, seed, replay=None):
     t4 = copy.deepcopy(t0)
     t4['ev'][idx]['pks'][0]['h'] ^= 0x10
     t4['tag'] = 'binding:header-port-bit-flipped'
-    sens += [t1, t2, t3, t4]
+    # a recording from the link that keeps the objects: the bytes serialised later replaced by the next call's
+    t5 = copy.deepcopy(next(t for t in p_traces if id(t) not in bad_ids))
+    sers = [e for e in t5['ev'] if e['e'] == 'ser']
+    k = next(i for i in range(len(sers) - 1) if sers[i]['pk'] != sers[i + 1]['pk'])
+    sers[k]['pk'] = copy.deepcopy(sers[k + 1]['pk'])
+    t5['tag'] = 'binding:late-packet-carries-the-next-command'
+    sens += [t1, t2, t3, t4, t5]
     sbad, sdrift = judge(out, sens, 'mutants and corrupted recordings', count=False)
     rej, drf, tot = {}, {}, {}
     for t in sens:
